@@ -310,7 +310,7 @@ theorem walk_nav (neg : Bool) : ∀ (parts : List Bytes) (con : Node),
 /-! ### `withPath` -/
 
 theorem splitPath_eq_impl {path : Bytes} {parts : List Bytes} {key : Bytes}
-    (h : Impl.splitPath path = some (parts, key)) (hk : key ≠ []) :
+    (h : Impl.splitPath path = some (parts, key)) (hk : path ≠ []) :
     splitPath path = some (parts, key) := by
   unfold Impl.splitPath at h
   unfold splitPath
@@ -322,7 +322,7 @@ theorem splitPath_eq_impl {path : Bytes} {parts : List Bytes} {key : Bytes}
       rw [hs] at h
       simp only at h
       split at h
-      · simp only [Option.some.injEq, Prod.mk.injEq] at h; exact absurd h.2.symm hk
+      · rename_i hpe; exact absurd hpe hk
       · cases h
     | cons y ys => rw [hs] at h; exact h
 
@@ -349,8 +349,8 @@ theorem withPath_refines {α β} {neg : Bool} {root : Node} {path : Bytes} {toks
         (c = .parentUnreachable ∧ (withPath neg root path act = .notFound ∨
           ∃ rb key, withPath neg root path act = doneOf rb (act .docNil key))))
     | .unspec => True := by
-  obtain ⟨parts, key, hsp, htoks, _, hkey⟩ := Impl.splitPath_of_parsePointer hp hne
-  have hsp' := splitPath_eq_impl hsp hkey
+  obtain ⟨parts, key, hsp, htoks⟩ := Impl.splitPath_of_parsePointer hp hne
+  have hsp' := splitPath_eq_impl hsp (fun h => hne ((Impl.parsePointer_nil_iff hp).2 h))
   subst htoks
   rw [Impl.atParent_nav]
   have hA := hact key (by simp)
